@@ -18,7 +18,7 @@ from vmon.res import Result, exc_name
 
 ID = "C13"
 LEVEL = "exploration"
-CASES = {"quick": 4000, "thorough": 80000}
+CASES = {"quick": 4000, "thorough": 320000}
 RULE = ("seeded random frames with >= 1 row over bool/int/float/str/date/datetime (+ object bool-with-None) columns, NA patterns incl. first "
         "position and all-missing, hostile values, x {ListOfDicts, JSON text, pandas.DataFrame, pyarrow.Table}; non-trivial = every executed "
         "round trip; distinct = distinct (target, column kinds with NA flags, nrow class) signatures")
